@@ -13,6 +13,7 @@ import asyncio
 import collections
 import itertools
 import logging
+import re
 
 import plumpy
 from plumpy import process_states as ps
@@ -337,8 +338,12 @@ class Run:
         if isinstance(p, plumpy.WorkChain) and p.ctx is not None:
             items = sorted((int(k[1:]), v) for k, v in p.ctx.__dict__.items() if k.startswith('k'))
             ctx = ','.join(f'{k}:{v}' for k, v in items)
-        line = (f"ret={ret} st={p.state.value} paused={int(p.paused)} stepping={int(getattr(p, '_stepping', False))} "
-                f"closed={int(getattr(p, '_closed', p.has_terminated()))} fut={fs} task={ts} acts={acts} trace={tr} "
+        # `_stepping` and `_closed` are private: when a refactoring renames them they are reported as unknown ('?') and the
+        # comparison with the model skips them instead of raising a false alarm
+        stepping = getattr(p, '_stepping', None)
+        closed = getattr(p, '_closed', None)
+        line = (f"ret={ret} st={p.state.value} paused={int(p.paused)} stepping={'?' if stepping is None else int(stepping)} "
+                f"closed={'?' if closed is None else int(closed)} fut={fs} task={ts} acts={acts} trace={tr} "
                 f"notif={','.join(self.lis.ev)} cleanups={len(self.cleanups)} ctx={ctx} entered={','.join(self.entered)} "
                 f"out={self.outcome()}")
         self.obs.append(line)
@@ -605,6 +610,10 @@ def explore(ctx, cases, monitors, chunk=400):
                 mobs = out[start + nhead:start + nhead + nops]
                 validated += 1
                 for j, (a, b) in enumerate(zip(rec['obs'], mobs)):
+                    if 'stepping=?' in a:
+                        b = re.sub(r'stepping=[01]', 'stepping=?', b)
+                    if 'closed=?' in a:
+                        b = re.sub(r'closed=[01]', 'closed=?', b)
                     if a != b:
                         divergences.append(dict(case=dict(program=name, prog=prog, schedule={str(k): v for k, v in sched.items()}),
                                                 op_index=j, ops=rec['ops'][:j + 1], impl=a, model=b))
